@@ -30,6 +30,9 @@ mod sealed {
     pub(super) allocated: u32,
     pub(super) min_segment_size: u32,
     pub(super) discarded: u32,
+    /// Explicit padding: the header is written to (file backed) memory as a whole,
+    /// so it must not contain any uninitialized padding bytes.
+    _padding: u32,
   }
 
   impl super::super::sealed::Header for Header {
@@ -40,6 +43,7 @@ mod sealed {
         sentinel: SegmentNode::sentinel(),
         min_segment_size,
         discarded: 0,
+        _padding: 0,
       }
     }
 
